@@ -94,6 +94,7 @@ structure Cell where
   obj : Option Nat := none        -- `_obj`
   ready : Bool := false           -- `_is_ready`
   ttl : Option Time := none       -- `_ttl.tmax`, `none` = `Timeout(None)`
+  eofed : Bool := false           -- ghost: completed by `_cleanup` with `EOFError("connection closed")`
   deriving DecidableEq, Repr
 
 /-- ghost status of the k-th frame the peer sent -/
@@ -210,14 +211,32 @@ def doP0 (s : St) (t : Tid) (l : Loc) : Option St :=
   | [] => if s.eof then some (setLoc s t { l with pc := .x0, data := none })
           else if expiredAt l.dl s.now then some (setLoc s t { l with pc := .r0, data := none }) else none
 
+/-- the payload standing for `EOFError("connection closed")` in a result cell -/
+def eofVal : Nat := 1
+
+/-- `_cleanup` completes this still-registered request with the end of the connection (`AsyncResult.__call__` drops
+it if the result has expired meanwhile) -/
+def closePublishes (s : St) (q : Seq) : Bool := (s.cells q).reg && !expiredAt (s.cells q).ttl s.now
+
 /-- `self.close()` (atomic here): the first caller marks the connection closed, spends one sequence number on
-its `HANDLE_CLOSE` request (nobody answers it), closes the channel and clears the callbacks table; later
-callers return at once.  Then `raise`: the `EOFError` leaves `serve` through its `finally`. -/
+its `HANDLE_CLOSE` request (nobody answers it), closes the channel, takes every callback out of the table and
+completes each still-pending request with `(True, EOFError("connection closed"))` — its result becomes ready
+with that error (unless expired), the ghost `answer` of that seq becomes the end-of-connection marker (a reply
+that is still in the channel or in a thread's hand will find no callback and be dropped); later callers return at
+once.  Then `raise`: the `EOFError` leaves `serve` through its `finally`. -/
 def doX0 (s : St) (t : Tid) (l : Loc) : St :=
   if s.closed then setLoc s t { l with pc := .r0, raising := true }
   else { setLoc s t { l with pc := .r0, raising := true } with
          closed := true, seqCounter := s.seqCounter + 1,
-         cells := fun q => { s.cells q with reg := false } }
+         cells := fun q =>
+           if (s.cells q).reg then
+             (if expiredAt (s.cells q).ttl s.now then { s.cells q with reg := false }
+              else { s.cells q with reg := false, isExc := some true, obj := some eofVal, ready := true, eofed := true })
+           else s.cells q,
+         answer := fun q => if closePublishes s q then some (true, eofVal) else s.answer q,
+         completions := fun q => if closePublishes s q then s.completions q + 1 else s.completions q,
+         popper := fun q => if (s.cells q).reg then some t else s.popper q,
+         outstanding := s.outstanding.filter (fun q => !closePublishes s q) }
 
 def doR0 (s : St) (t : Tid) (l : Loc) : St :=
   { setLoc s t { l with pc := .n0 } with recvLock := none }
